@@ -52,7 +52,7 @@ func (c14) Info() core.Info {
 			"the re-read is skipped when the filtered PMT has no stream (that is C06's recorded finding about ReadPMT)",
 			"any number of output packets is accepted as long as headers match the inputs index-wise and the concatenated payload is the expected section followed only by 0xFF",
 		},
-		RequiredProbes: []string{"keep_none", "keep_some", "keep_all", "missing_some", "missing_all", "dup_requested", "pat_or_pmt_pid_requested", "multi_packet_in", "fewer_packets_out", "pointer_gt0", "af_in_header", "reread_ok", "empty_request", "remove_streams", "refused_call_before", "sibling_call_before", "section_plus_pointer_gt_1021", "requested_value_outside_pid_range", "remove_list_is_the_pmts_own_pid_list"},
+		RequiredProbes: []string{"keep_none", "keep_some", "keep_all", "missing_some", "missing_all", "dup_requested", "pat_or_pmt_pid_requested", "multi_packet_in", "pointer_gt0", "af_in_header", "reread_ok", "empty_request", "remove_streams", "refused_call_before", "sibling_call_before", "section_plus_pointer_gt_1021", "requested_value_outside_pid_range", "remove_list_is_the_pmts_own_pid_list"},
 	}
 }
 
